@@ -1,6 +1,6 @@
 (* The authentication / authorization interceptors (accounts/util.go) as decision functions over the
    generated tables (Gen/AuthTables.v), for arbitrary credential validators and policies. *)
-From Coq Require Import List String Bool.
+From Coq Require Import List String Ascii Bool.
 Import ListNotations.
 From Grip Require Import Model.AuthTypes Gen.AuthTables.
 Local Open Scope string_scope.
@@ -109,6 +109,23 @@ Definition tables_ok : bool :=
   && match client_stream_default with DRefuses => true | _ => false end
   && forallb snd gateway_clients && grpc_server_chained
   && match unrecognised with [] => true | _ => false end.
+
+(* ---------- operation classes by what a method does ---------- *)
+(* the name of a method says what it does to a graph: Add*/Delete*/Bulk* change stored data and need the write class,
+   Get*/List*/Search*/View* only read and need the read class; everything of the Configure service is administration *)
+Fixpoint after_last_slash (s acc : string) : string :=
+  match s with
+  | EmptyString => acc
+  | String c r => if Ascii.eqb c "/"%char then after_last_slash r r else after_last_slash r acc
+  end.
+Definition verb_of (m : string) : string := after_last_slash m m.
+Definition class_rule (mo : string * op) : bool :=
+  let v := verb_of (fst mo) in
+  if prefix "/gripql.Configure/" (fst mo) then op_eqb (snd mo) OpAdmin
+  else if prefix "Add" v || prefix "Delete" v || prefix "Bulk" v then op_eqb (snd mo) OpWrite
+  else if prefix "Get" v || prefix "List" v || prefix "Search" v || prefix "View" v then op_eqb (snd mo) OpRead
+  else true.
+Definition classes_ok : bool := forallb class_rule method_map.
 
 (* ---------- accounts/basic.go BasicAuth.Validate ---------- *)
 (* hdr = the (user, password) pair a well-formed "Basic ..." authorization header decodes to; None = no header,
